@@ -215,6 +215,16 @@ def run(ctx):
     ctx.states += st_
     ctx.transitions += tr
     ctx.traces += ok
+    import copy
+    neg = []
+    for ev, mut in (('gsample', lambda c: c['got'].__setitem__(0, c['got'][0] + 64)), ('gperiod', lambda c: c['v1'].__setitem__(0, c['v1'][0] + 64)),
+                    ('gconv', lambda c: c['back'][0].__setitem__(0, c['back'][0][0] + 1)), ('pnterms', lambda c: c.__setitem__('surface', c['surface'] + 1)),
+                    ('pnlaws', lambda c: c.__setitem__('edouble', c['edouble'] + 64)), ('pnsolve', lambda c: c.__setitem__('after', c['before'] + 64)),
+                    ('pnwidth', lambda c: c.__setitem__('e', sorted(c['e'])))):
+        rr = [r_ for r_ in recs if r_['ev'] == ev]
+        if rr:
+            c = copy.deepcopy(rr[0]); mut(c); neg.append(c)
+    ctx.extra['corrupted_records_rejected'] = tlc.must_reject('PN_Trace', 'PN_trace.cfg', neg, ctx.work, 'C18')
     ctx.extra['records'] = {k: sum(1 for r_ in recs if r_['ev'] == k) for k in ('gsample', 'gperiod', 'gconv', 'pnterms', 'pnlaws', 'pnsolve', 'pnwidth')}
     for b in bads:
         rec = b['record']
